@@ -682,18 +682,17 @@ Qed.
 
 Lemma good_remove_substituent s s1 s2 l : Inv s -> good s (remove_substituent s s1 s2 l).
 Proof.
-  intros HI. unfold remove_substituent. destruct s1; try exact I;
-  (unfold remove_substituent_body;
-   destruct (get_atom_index s s2); [|apply good_refl_err; exact HI];
-   destruct (nth_error (coords s) n); [|apply good_refl_err; exact HI];
-   match goal with |- good s (match ?g with _ => _ end) => destruct g end; [|apply good_refl_err; exact HI];
-   destruct (get_atom s s2); [|apply good_refl_err; exact HI];
-   match goal with |- good s (if ?g then _ else _) => destruct g end; [|apply good_refl_err; exact HI];
-   match goal with |- good s (match ?g with _ => _ end) => destruct g end; [|exact I];
-   apply good_bind; [exact HI| |];
-   [ apply (good_fold (fun s' x => del_atom s' (ByObj x))); [intros; apply good_del_atom; assumption|exact HI]
-   | intros sa Ha _; apply good_bind; [exact Ha|apply good_add_atom; exact Ha|];
-     intros sb Hb _; apply good_connect; exact Hb ]).
+  intros HI. unfold remove_substituent.
+  destruct (get_atom s s1) as [a1|]; [|apply good_refl_err; exact HI].
+  destruct (get_atom s s2) as [a2|]; [|apply good_refl_err; exact HI].
+  destruct (get_atom_index s (ByObj (a_id a2))) as [i2|]; [|apply good_refl_err; exact HI].
+  destruct (nth_error (coords s) i2) as [c2|]; [|apply good_refl_err; exact HI].
+  destruct (mem (a_id a2) (neighbours s (a_id a1))); [|apply good_refl_err; exact HI].
+  destruct (bfs_loop (bfs_fuel s) s [a_id a2; a_id a1] [a_id a2] [a_id a2]) as [out|]; [|exact I].
+  apply good_bind; [exact HI| |].
+  - apply (good_fold (fun s' x => del_atom s' (ByObj x))); [intros; apply good_del_atom; assumption|exact HI].
+  - intros sa Ha _. apply good_bind; [exact Ha|apply good_add_atom; exact Ha|].
+    intros sb Hb _. apply good_connect. exact Hb.
 Qed.
 
 Lemma good_add_hs_one s x cs : Inv s -> good s (add_hs_one s x cs).
@@ -940,7 +939,7 @@ Proof.
 Qed.
 
 (* ================================================================== remove_substituent does not fail half-way
-   (a1 designated by object, a1 <> a2): once the checks at its beginning have passed, nothing raises *)
+   (a1 <> a2, however they are designated): once the checks at its beginning have passed, nothing raises *)
 Record bfs_inv (s : st) (x1 : positive) (vis out : list positive) : Prop := {
   bi_sub : forall y, In y out -> In y vis;
   bi_nd : NoDup out;
@@ -1028,46 +1027,46 @@ Proof.
     + intros [A B]. split; [split; [exact A|]|]; intro E; apply B; [left; congruence|right; exact E].
 Qed.
 
-Theorem rs_err_unchanged s x1 s2 l s' : Inv s ->
-  (forall a2, get_atom s s2 = Some a2 -> a_id a2 <> x1) ->
-  remove_substituent s (ByObj x1) s2 l = Err s' -> s' = s.
+Theorem rs_err_unchanged s s1 s2 l s' : Inv s ->
+  (forall a1 a2, get_atom s s1 = Some a1 -> get_atom s s2 = Some a2 -> a_id a2 <> a_id a1) ->
+  remove_substituent s s1 s2 l = Err s' -> s' = s.
 Proof.
-  intros HI Hne H. unfold remove_substituent, remove_substituent_body in H.
-  destruct (get_atom_index s s2) as [i2|]; [|congruence].
-  destruct (nth_error (coords s) i2) as [c2|]; [|congruence].
-  destruct (get_atom s (ByObj x1)) as [a1|] eqn:E1; [|congruence].
+  intros HI Hne H. unfold remove_substituent in H.
+  destruct (get_atom s s1) as [a1|] eqn:E1; [|congruence].
   destruct (get_atom s s2) as [a2|] eqn:E2; [|congruence].
+  destruct (get_atom_index s (ByObj (a_id a2))) as [i2|]; [|congruence].
+  destruct (nth_error (coords s) i2) as [c2|]; [|congruence].
   destruct (mem (a_id a2) (neighbours s (a_id a1))) eqn:Em; [|congruence].
   destruct (bfs_loop (bfs_fuel s) s [a_id a2; a_id a1] [a_id a2] [a_id a2]) as [out|] eqn:Eb; [|discriminate].
-  exfalso.
-  simpl in E1. apply find_some in E1. destruct E1 as [Hin1 E1]. apply id_is_true in E1.
-  assert (Hx1 : In x1 (ids s)) by (rewrite <- E1; apply in_map; exact Hin1).
+  exfalso. set (x1 := a_id a1) in *.
+  destruct (get_atom_in s s1 E1) as [j1 Hj1].
+  assert (Hx1 : In x1 (ids s)) by (apply in_map; eapply nth_error_In; eauto).
   destruct (get_atom_in s s2 E2) as [j Hj].
   assert (Ha2 : In (a_id a2) (ids s)) by (apply in_map; eapply nth_error_In; eauto).
-  specialize (Hne a2 eq_refl).
-  assert (HI0 : bfs_inv s x1 [a_id a2; a_id a1] [a_id a2]).
+  specialize (Hne a1 a2 eq_refl eq_refl). fold x1 in Hne.
+  assert (HI0 : bfs_inv s x1 [a_id a2; x1] [a_id a2]).
   { constructor.
     - intros y [<-|[]]. left. reflexivity.
     - constructor; [intros []|constructor].
-    - right. left. exact E1.
+    - right. left. reflexivity.
     - intros [E|[]]. congruence.
     - intros y [<-|[]]. exact Ha2. }
   destruct (bfs_loop_inv s x1 HI _ _ _ _ _ HI0 Eb) as [vis' [B1 B2 B3 B5 B4]].
   assert (Hout_nd : NoDup out) by (rewrite <- (rev_involutive out); apply NoDup_rev; exact B2).
   assert (Hout_mem : forall y, In y out -> In y (ids s)) by (intros y Hy; apply B4; apply in_rev in Hy; exact Hy).
   assert (Hx1out : ~ In x1 out) by (intro Hy; apply B5; apply in_rev in Hy; exact Hy).
-  destruct (del_fold_ok out s HI Hout_nd Hout_mem) as [s1 [F1 [F2 F3]]].
-  rewrite F1 in H. simpl bind in H.
+  destruct (del_fold_ok out s HI Hout_nd Hout_mem) as [s1' [F1 [F2 F3]]].
+  rewrite F1 in H. cbn [bind] in H.
   rewrite add_atom_spec in H. cbn [bind] in H.
-  set (sa := added s1 el_Unknown l c2 0) in *.
+  set (sa := added s1' el_Unknown l c2 0) in *.
   unfold conn_connect in H. cbn [get_atom] in H.
   assert (M1 : In x1 (ids sa)).
   { unfold sa, added, ids. simpl. rewrite map_app. apply in_or_app. left. apply F3. split; assumption. }
-  assert (M2 : In (next_a s1) (ids sa)).
+  assert (M2 : In (next_a s1') (ids sa)).
   { unfold sa, added, ids. simpl. rewrite map_app. apply in_or_app. right. left. reflexivity. }
   destruct (in_ids_find_idx sa _ M1) as [k1 K1]. destruct (find_idx_nth _ _ K1) as [b1 [_ [P1 Q1]]].
   destruct (in_ids_find_idx sa _ M2) as [k2 K2]. destruct (find_idx_nth _ _ K2) as [b2 [_ [P2 Q2]]].
-  rewrite Q1, Q2 in H. apply id_is_true in P1. apply id_is_true in P2.
+  rewrite Q1, Q2 in H.
   eapply append_bond_no_err. exact H.
 Qed.
 
